@@ -5,7 +5,10 @@ from . import parts
 
 def run(tier):
     ck = common.Check('C03', tier)
-    res = parts.run_parts(ck, tier, ir_parts=('ir_lifetime', 'ir_size'))
+    res = parts.run_parts(ck, tier, ir_parts=('ir_lifetime', 'ir_size', 'ir_laws'),
+                          rule_filter=lambda part, x: part != 'ir_laws' or x.rule == 'R03.7')
+    led = sum(x['res']['ledgered'] for x in res.get('ir_laws', []))
+    ck.floor('normal-return paths with an exact lifetime ledger', led, 1500 if tier == 'quick' else 10000)
     from .. import irrules
     irrules.run_canaries(ck, {'ir_size': [('R06.3', 'canary_size_first')]})
     r = res.get('ir_lifetime', [])
@@ -20,5 +23,8 @@ def run(tier):
         'placement-new or destructor call; R03.2: in every function whose own loop constructs elements into storage not yet covered by '
         'size, an exception leaves only after the range ending at the failing element was destroyed; R03.3: a buffer held on entry is '
         'released only after destroy of [data, data + size) of that container; R06.3/R03.5: size changes are ordered with the '
-        'construction/destruction of the elements they cover. Not decided: "no construct over a live element" inside the tail-split '
-        'insert paths; exact once-ness over histories.')
+        'construction/destruction of the elements they cover; R03.7 (exact ledger on normal-return paths of the public modifiers, '
+        'from the element range effects of svlib/rules/ir_laws.py): in storage that held live elements on entry elements are assigned '
+        '(or destroyed and re-constructed), beyond it and in fresh buffers they are constructed - never the other way round; the '
+        'elements that leave the sequence ([new end, old end) when it shrinks in place, the whole old buffer when it is relocated) are '
+        'destroyed exactly, and nothing that stays is destroyed. Not decided: exact once-ness over whole histories.')
